@@ -42,6 +42,8 @@ class SimEvaluator:
         self.memoize = bool(mode.get("memoize", False))
         self.readonly = bool(mode.get("readonly", False))
         self.info = bool(mode.get("info", False))
+        self.reuse = bool(mode.get("reuse", False))  # the evaluator re-uses its own output buffers
+        self._buffers: dict[tuple, np.ndarray] = {}
         self.calls: list[CallRecord] = []
         self.fired: dict[str, int] = {}
         self._memo: dict[bytes, EvaluatorResult] = {}
@@ -178,6 +180,24 @@ class SimEvaluator:
 
         rec.obj = obj.copy()
         rec.con = None if con is None else con.copy()
+        if self.reuse:
+            # legal user behaviour: write the new values into the same arrays as last time
+            for name, arr in (("o", obj), ("c", con)):
+                if arr is None:
+                    continue
+                buf = self._buffers.get((name, arr.shape))
+                if buf is None:
+                    self._buffers[(name, arr.shape)] = arr
+                else:
+                    for old in self.calls[:-1]:
+                        if old.ret_obj_ref is buf or old.ret_con_ref is buf:
+                            old.returned = None  # its arrays are ours to overwrite
+                    buf[...] = arr
+                    self._fire("buffer_reused")
+                    if name == "o":
+                        obj = buf
+                    else:
+                        con = buf
         if self.readonly:
             obj.setflags(write=False)
             if con is not None:
